@@ -30,7 +30,9 @@ CHECKS = {
              'databases parsed from spelled documents (no exemption: whatever a parse returns must round-trip), built through the '
              'public classes from Expressible values, the corpus, and wild API-built ones whose named reason outside Expressible '
              'must be a listed finding. Correspondence: the Lean DBML renderer produces the same text and the Lean parser model '
-             'reads it back to the same content. Theorems refs_roundtrip_partial (plain tables followed by any number of different '
+             'reads it back to the same content. Theorems flags_table_roundtrip_partial (one table whose columns carry any subset of pk / increment / '
+             'unique / not null, possibly a one-line note and - option on - any number of properties; an instance of form_roundtrip, which '
+             'carries any column form that is read back through table rule, document, build and renderer), refs_roundtrip_partial (plain tables followed by any number of different '
              'standalone references, resolved by name back to the positions they were written from - the hypotheses on names are exactly the '
              'recorded findings), tables_roundtrip_partial (any positive number of tables with different '
              'names, each with any positive number of columns with quoted names and one-word types), enum_roundtrip_partial (an enum with '
@@ -164,7 +166,10 @@ CHECKS = {
              'renderings), rendering followed through three flips of the database flag at database, table and column level, and round '
              'trip with the flag on. Theorems: with the flag off the renderings do not depend on the stored properties '
              '(column_props_hidden, table_props_hidden, column_props_shown, sql_column_ignores_props); for ANY text parsed with the '
-             'option off no table or column blueprint carries a property (parseDoc_no_props_when_off).',
+             'option off no table or column blueprint carries a property (parseDoc_no_props_when_off); with the option on, column properties '
+             'next to any subset of the ordinary settings round-trip exactly, keys and values exact and order kept '
+             '(flags_table_roundtrip_partial, C02Flags.lean; keys: bare identifiers no setting word is a prefix of = the recorded finding; '
+             'table-level properties: oracle only).',
         note=TB,
         technique='Lean parser/renderer models + gate theorems + correspondence under both option values + flag-flip oracle'),
     'C16': dict(
